@@ -24,7 +24,8 @@ CFG = dict(
          "after every op through view handles taken once at creation, plus the batches applyFn was shown.  1/8 of the "
          "tracker cases ('stream:dup') let the iterator produce a key twice; 1/40 of the cases ('stream:big') use 130-220 "
          "keys so that IterBatched's first loop fills batches of 128 mid-range; 1/5 of the cases (KCache) drive the real "
-         "CachingMap[int,int] over a fake DataplaneMap with injected Load/Update/Delete failures, out-of-band writes, "
+         "CachingMap[int,int] over a fake DataplaneMap (half of them also a DataplaneBatchedMap: BatchUpdate/BatchDelete with "
+         "failing items, ErrNotExists, short writes) with injected Load/Update/Delete failures, out-of-band writes, "
          "LoadCacheFromDataplane, ApplyUpdatesOnly/ApplyDeletionsOnly/ApplyAllChanges (real map and error count dumped "
          "too).  non-trivial = tracker: some iteration applied an update/deletion, some replacement happened and at some "
          "point updates and deletions were pending together; cache: a successful and a failed ApplyAllChanges and an "
@@ -37,7 +38,8 @@ CFG = dict(
                  "Go map range yields every key present exactly once when the body only deletes the current key",
                  "IterBatched: applyFn's answers satisfy applied <= len(batch) and err => applied < len(batch) (else Go panics)",
                  "CachingMap theorems: nobody writes the dataplane map behind the cache's back between Load and Apply (CI); "
-                 "the batched DataplaneBatchedMap path of CachingMap is covered only through the IterBatched theorems"],
+                 "the DataplaneBatchedMap path of CachingMap (CUpdB/CDelB/CAllB) is modelled and checked by correspondence + oracle; "
+                 "its theorems are those of IterBatched (c18_views_exact) - the CachingMap-level theorems are for the per-key path"],
 )
 
 def run(ctx):
